@@ -6,7 +6,17 @@ import (
 	"fmt"
 	"go/types"
 	"math/big"
+	"strings"
 )
+
+func (r *RootCtx) noteOnce(s string) {
+	for _, n := range r.notes {
+		if n == s {
+			return
+		}
+	}
+	r.notes = append(r.notes, s)
+}
 
 func (tc *Tcx) zeroLeaf(l Leaf) *Term {
 	return zeroOfSort(l.Sort)
@@ -239,7 +249,16 @@ func (fx *FnCtx) Load(st *State, p *PtrInfo) Value {
 		case PGlobal:
 			t = fx.globalValue(st, p.Global).L[p.Off+i]
 		case PObj:
-			t = Select(fx.Heap(st, objHeapName(p.Root, lf), lf), p.Ref)
+			h := fx.Heap(st, objHeapName(p.Root, lf), lf)
+			if lf.Kind == "off" && h.Op == "sym" && strings.HasPrefix(h.Name, "H0_") {
+				// a slice held in memory at function entry is viewed as starting at element 0 of its
+				// own (abstract) backing array, like slice parameters: entry slices are assumed not to
+				// overlap partially. Keeps index terms free of a symbolic offset.
+				t = fx.tc.IdxNum(0)
+				fx.root.noteOnce("assumed: slices stored in memory at function entry start at element 0 of distinct abstract arrays (no partial overlap)")
+			} else {
+				t = Select(h, p.Ref)
+			}
 		case PElem:
 			h := fx.Heap(st, arrHeapName(p.Root, lf), lf)
 			t = Select(h, p.Arr)
